@@ -75,13 +75,16 @@ class _Continue(Exception):
 
 
 class Interp:
-    def __init__(self, facts, builtins=None, max_depth=12, max_steps=200000):
+    def __init__(self, facts, builtins=None, max_depth=12, max_steps=200000, unknown_call=None):
         self.f = facts
         self.builtins = builtins or {}
         self.max_depth = max_depth
         self.steps = 0
         self.max_steps = max_steps
         self.out = []          # text emitted through write!/push_str on tracked buffers
+        self.opaque_call = None            # optional predicate(node): do not descend into this crate function, treat as unknown
+        self.free_opaque = False           # free locals of an enclosing function evaluate to opaque values
+        self.unknown_call = unknown_call   # optional hook(interp, node, evaluated args or None) for calls outside the fragment
 
     # ---- entry ---------------------------------------------------------------------------------
     def call_fn(self, name, args, depth=0):
@@ -190,7 +193,20 @@ class Interp:
             if pat.get("fields") is not None:
                 if all(fp["pat"].get("k") == "wild" for fp in pat["fields"]):
                     return True
-                raise Unsupported("struct-variant field patterns")
+                # named fields: positions from the ADT table
+                enum = d.rsplit("::", 1)[0]
+                names = None
+                for vv in (self.f.adts.get(enum) or {}).get("variants", []):
+                    if vv["def"] == d:
+                        names = [x["name"] for x in vv["fields"]]
+                if names is None or len(names) != len(v.fields):
+                    raise Unsupported("struct-variant field patterns")
+                for fp in pat["fields"]:
+                    if fp["name"] not in names:
+                        raise Unsupported("struct-variant field %s" % fp["name"])
+                    if not self.bind(fp["pat"], v.fields[names.index(fp["name"])], env):
+                        return False
+                return True
             return True
         raise Unsupported("pattern kind %s" % k)
 
@@ -216,6 +232,8 @@ class Interp:
             return self.lit(e["lit"])
         if k == "local":
             if e["name"] not in env:
+                if self.free_opaque:
+                    return Opaque(e["name"])
                 raise Unsupported("unbound local %s" % e["name"])
             return env[e["name"]]
         if k == "path":
@@ -226,6 +244,8 @@ class Interp:
                 return Var(e.get("ctor_of") or d)
             if d in self.builtins:
                 return self.builtins[d](self, [])
+            if self.free_opaque:
+                return Opaque(d)
             raise Unsupported("path %s" % d)
         if k in ("addr",):
             return self.ev(e["e"], env, depth)
@@ -365,6 +385,8 @@ class Interp:
             if isinstance(base, dict):
                 if e["name"] in base:
                     return base[e["name"]]
+            if self.free_opaque and isinstance(base, Opaque):
+                return Opaque("%s.%s" % (base.tag, e["name"]))
             raise Unsupported("field %s of %r" % (e["name"], base))
         if k == "ret":
             raise _Return(self.ev(e["e"], env, depth) if e.get("e") is not None else ())
@@ -438,6 +460,8 @@ class Interp:
             return "true" if v else "false"
         if isinstance(v, int):
             return str(v)
+        if self.free_opaque and isinstance(v, Opaque):
+            return "<%s>" % v.tag
         raise Unsupported("Display of %r" % (v,))
 
     def call(self, e, env, depth):
@@ -490,6 +514,8 @@ class Interp:
                 return v
             if isinstance(v, (Ch, int)) and not isinstance(v, bool):
                 return self.display(v)
+            if self.free_opaque and isinstance(v, Opaque):
+                return "<%s>" % v.tag
             raise Unsupported("to_string of %r" % (v,))
         if e.get("k") == "mcall" and name in ("as_ref", "deref", "borrow", "clone", "to_owned", "as_str", "into", "unwrap", "as_mut", "by_ref") and not e.get("args"):
             v = self.ev(e["recv"], env, depth)
@@ -515,6 +541,8 @@ class Interp:
                         return self.call_fn(i["items"]["from"], [v], depth + 1)
                 if ty == rty:
                     return v
+                if isinstance(v, str) and ty in ("alloc::string::String", "alloc::borrow::Cow<'_, str>", "&str"):
+                    return v
                 raise Unsupported("into %s -> %s" % (rty, ty))
             return v
         if e.get("k") == "mcall" and name in ("write_fmt", "write_str", "push_str", "push", "write_char"):
@@ -537,10 +565,14 @@ class Interp:
             return self.ev(e["recv"], env, depth) is None
         # crate functions: interpret their body
         target = c if c in self.f.fns else (decl if decl in self.f.fns else None)
+        if target is not None and self.opaque_call is not None and self.opaque_call(e):
+            return self.unknown_call(self, e, env, depth)
         if target is not None and self.f.fns[target].get("hir") is not None:
             recv = [self.ev(e["recv"], env, depth)] if e.get("k") == "mcall" else []
             args = [self.ev(a, env, depth) for a in e.get("args") or []]
             return self.call_fn(target, recv + args, depth + 1)
+        if self.unknown_call is not None:
+            return self.unknown_call(self, e, env, depth)
         raise Unsupported("call %s" % (c or decl))
 
 
